@@ -81,26 +81,26 @@ impl FromStr for Type {
 
     fn from_str(text: &str) -> Result<Self, Self::Err> {
         match Caseless(text) {
-            Caseless("A") => Ok(Self::A),
-            Caseless("NS") => Ok(Self::NS),
-            Caseless("MD") => Ok(Self::MD),
-            Caseless("MF") => Ok(Self::MF),
-            Caseless("CNAME") => Ok(Self::CNAME),
-            Caseless("SOA") => Ok(Self::SOA),
-            Caseless("MB") => Ok(Self::MB),
-            Caseless("MG") => Ok(Self::MG),
-            Caseless("MR") => Ok(Self::MR),
-            Caseless("NULL") => Ok(Self::NULL),
-            Caseless("WKS") => Ok(Self::WKS),
-            Caseless("PTR") => Ok(Self::PTR),
-            Caseless("HINFO") => Ok(Self::HINFO),
-            Caseless("MINFO") => Ok(Self::MINFO),
-            Caseless("MX") => Ok(Self::MX),
-            Caseless("TXT") => Ok(Self::TXT),
-            Caseless("AAAA") => Ok(Self::AAAA),
-            Caseless("SRV") => Ok(Self::SRV),
-            Caseless("OPT") => Ok(Self::OPT),
-            Caseless("TSIG") => Ok(Self::TSIG),
+            t if t == Caseless("A") => Ok(Self::A),
+            t if t == Caseless("NS") => Ok(Self::NS),
+            t if t == Caseless("MD") => Ok(Self::MD),
+            t if t == Caseless("MF") => Ok(Self::MF),
+            t if t == Caseless("CNAME") => Ok(Self::CNAME),
+            t if t == Caseless("SOA") => Ok(Self::SOA),
+            t if t == Caseless("MB") => Ok(Self::MB),
+            t if t == Caseless("MG") => Ok(Self::MG),
+            t if t == Caseless("MR") => Ok(Self::MR),
+            t if t == Caseless("NULL") => Ok(Self::NULL),
+            t if t == Caseless("WKS") => Ok(Self::WKS),
+            t if t == Caseless("PTR") => Ok(Self::PTR),
+            t if t == Caseless("HINFO") => Ok(Self::HINFO),
+            t if t == Caseless("MINFO") => Ok(Self::MINFO),
+            t if t == Caseless("MX") => Ok(Self::MX),
+            t if t == Caseless("TXT") => Ok(Self::TXT),
+            t if t == Caseless("AAAA") => Ok(Self::AAAA),
+            t if t == Caseless("SRV") => Ok(Self::SRV),
+            t if t == Caseless("OPT") => Ok(Self::OPT),
+            t if t == Caseless("TSIG") => Ok(Self::TSIG),
             _ => {
                 if text
                     .get(0..4)
